@@ -144,6 +144,19 @@ fn invocation(t: &mut Tape, w: &World, st: &mut Stats) -> (String, Vec<String>) 
             let n = t.len(3);
             for _ in 0..n {
                 let name = if !w.caller_vars.is_empty() && t.chance(2, 3) { w.caller_vars[t.below(w.caller_vars.len())].clone() } else { "never_defined".to_string() };
+                if t.chance(1, 5) {
+                    // the name of an existing variable padded with white space names nothing: nothing is removed
+                    let padded = match t.below(3) {
+                        0 => format!(" {}", name),
+                        1 => format!("{} ", name),
+                        _ => format!("\u{a0}{} ", name),
+                    };
+                    st.class("unset-of-a-padded-name");
+                    args.push(q(&padded));
+                    // keeps `unset_names` parallel to `args` (a name no variable has)
+                    unset_names.push(padded);
+                    continue;
+                }
                 unset_names.push(name.clone());
                 args.push(q(&name));
             }
